@@ -153,6 +153,9 @@ def check_case(ctx: Ctx, c: Dict[str, Any], files: bool = False, scratch: str = 
             except ValueError:
                 ctx.notes["origin_and_center_refused_by_rounding"] = ctx.notes.get("origin_and_center_refused_by_rounding", 0) + 1
                 g = None
+            except Exception as ex:  # anything but the documented refusal is a failure of the constructor
+                ctx.violation(dict(op="Grid(origin+center)", exc=type(ex).__name__, **sig0, how=how), f"Grid(origin+center) raised {type(ex).__name__}: {ex}", c)
+                g = None
         else:
             g = guarded("Grid(" + how + ")", mk, how=how)
         if g is not None:
